@@ -33,6 +33,7 @@ import (
 	"github.com/fatedier/frp/pkg/transport"
 	"github.com/fatedier/frp/pkg/util/log"
 	"github.com/fatedier/frp/pkg/util/util"
+	"github.com/fatedier/frp/pkg/util/verifhook"
 )
 
 // NatHoleTimeout seconds.
@@ -196,6 +197,7 @@ func (c *Controller) HandleVisitor(m *msg.NatHoleVisitor, transporter transport.
 		return
 	}
 	log.Tracef("handle visitor message, sid [%s], server name: %s", sid, m.ProxyName)
+	verifhook.At("nathole.visitor.afterLookup", m.ProxyName, sid)
 
 	defer func() {
 		c.mu.Lock()
